@@ -520,7 +520,7 @@ def default_value(it, ty):
         return Agg('HashVal', [bv(0, 256)])
     if b in ('TxHash', 'Address'):
         return Agg(b, [Agg('HashVal', [bv(0, 256)])])
-    if b == 'Bytes':
+    if b == 'Bytes' or ty in ('&[u8]', '&[u8; 0]'):
         return Agg('Vec', [])
     if b == 'Vec':
         return Agg('Vec', [])
